@@ -1094,7 +1094,7 @@ def interval_unreachable(F, b, bb):
             dom = RangeDomain(F)
             from .roles import int_helper_paths
             int_fns = set(int_helper_paths(F)) | int_param_functions(F)      # callees with integer parameters are analysed in context
-            run_top(F, dom, F.bodies[root], lambda d: d in int_fns)
+            run_top(F, dom, F.bodies[root], lambda d: d in int_fns, max_steps=40000, max_paths=400)      # a reachability question: small budget
             if root in dom.completed:
                 cache[key] = set(dom.panics)
         except Exception:
@@ -1131,7 +1131,9 @@ def debug_assert_unreachable(repo, b, bb):
         if not insts:
             return False, ""
         for inst in insts[:4]:
-            outs = Machine(F, pol).run(b, list(args), holders=list(holders), inst=inst)
+            mach = Machine(F, pol)
+            mach.max_states, mach.max_steps = 400, 40000       # a reachability question about one function: small budget
+            outs = mach.run(b, list(args), holders=list(holders), inst=inst)
             for o in outs:
                 if o.kind == "undecided":
                     return False, ""
@@ -1394,10 +1396,10 @@ def shape_value(F, ty, depth=0):
     return TOP
 
 
-def run_top(F, dom, b, inline):
+def run_top(F, dom, b, inline, max_steps=600000, max_paths=20000):
     dom.root = b.rec["path"]
     dom._abstract_heads = set()      # loop abstractions are decided per analysed root
-    ex = AbsExec(F, dom, inline=inline, max_steps=600000, max_paths=20000)
+    ex = AbsExec(F, dom, inline=inline, max_steps=max_steps, max_paths=max_paths)
     args = []
     holders = []
     for i, ty in enumerate(b.rec.get("inputs") or []):
